@@ -166,6 +166,16 @@ def run(ctx):
     ctx.ob("R3.periodic-modulo-before-mask", CL, "CellList._post_process", "indices %= orig_length before _as_mask", ok,
            "image atoms have indices >= the atom count; they must be folded back before the mask of width atom count "
            "is written under boundscheck(False)", pp.lineno)
+    # ... and the index arrays that are handed out hold atom indices as well: with periodicity NO result leaves _post_process without
+    # having passed the periodicity test (and, on its true side, the modulo)
+    ok_all = bool(mod and per)
+    if ok_all:
+        ok_all = g2.path(g2.entry.id, g2.exit.id, blocked={per[0].id}) is None \
+            and all(g2.path(b, g2.exit.id, blocked={mod[0].id}) is None or b == mod[0].id
+                    for b in g2.succ[per[0].id] if g2.ekind[(per[0].id, b)] == "t")
+    ctx.ob("R3.periodic-modulo-every-result", CL, "CellList._post_process", "every result passes `if self._periodic: indices %= orig_length`", ok_all,
+           "a periodic cell list holds 27 images of every atom: index arrays that are returned without the modulo name image atoms "
+           "(indices >= the atom count), while the mask form of the same query is right", pp.lineno)
     am = s.func("CellList._as_mask")
     ctx.ob("R3.mask-width", CL, "CellList._as_mask", "np.zeros((indices.shape[0], self._orig_length))",
            has_code(am, "np.zeros((indices.shape[0], self._orig_length), dtype=np.uint8)")
@@ -209,6 +219,14 @@ def query_rules(ctx, s):
     from ..exprnorm import local_value
     sqv = local_value(ga, "sq_radii")
     _pv = lambda k: f"__item__(_prepare_vectorization(move_inside_box(coord, self._box) if self._periodic else coord, radius, np.float32), {k})"
+    # the cell radius that covers a distance: the distance in units of the cell size, rounded UP (array form and scalar form alike)
+    crv = local_value(ga, "cell_radii")
+    ctx.ob("R4.cell-radius-covers-distance", CL, "CellList.get_atoms", "cell_radii = ceil(radius / cellsize)",
+           crv is not None and any(same_expr(crv, f"np.ceil({_pv(1)} / self._cellsize).astype(np.int32) if {_pv(3)} else "
+                                                  f"np.full(len({n_}), int(np.ceil({_pv(1)}[0] / self._cellsize)), dtype=np.int32)")
+                                   for n_ in (_pv(0), _pv(1))),
+           "the number of cells to visit around a query is the radius divided by the cell size, rounded up: rounding the radius first (or "
+           "down) leaves cells unvisited that hold atoms within the radius", ga.lineno)
     ctx.ob("R4.distance-filter", CL, "CellList.get_atoms", "sq_radii = radius * radius (per query, or the one radius for all)",
            # local_value composes the value from the function's inputs: coord / radius / is_multi_radius are items 0 / 1 / 3 of
            # _prepare_vectorization(<wrapped query>, radius, np.float32) (its contract: len(radius) == len(coord))
